@@ -97,14 +97,15 @@ Definition sg_once_ok (p : sg_proto) : bool :=
 
 Definition is_atomic (m : mode) := match m with Atomic => true | Plain => false end.
 
+(** race freedom: given the check under the lock, the only access to the pointer that can be
+    simultaneous with its store is the unlocked first check; it must then be an atomic access
+    to an atomic pointer.  (A thread that reads the pointer after its own critical section, or
+    after a successful first check, reads a pointer that is not written any more.) *)
 Definition sg_race_ok (p : sg_proto) : bool :=
-  match sg_first p, sg_ret p with
-  | None, RetLocal => true
-  | None, RetRead _ true => true
-  | _, _ =>
-      is_atomic (sg_store p) &&
-      match sg_first p with Some m => is_atomic m | None => true end &&
-      match sg_ret p with RetRead m _ => is_atomic m | RetLocal => true end
+  sg_once_ok p &&
+  match sg_first p with
+  | None => true
+  | Some m => is_atomic m && is_atomic (sg_store p)
   end.
 
 (** the protocol of the pinned source (before the repair): double-checked locking on a plain
